@@ -101,9 +101,17 @@ theorem Simple.wf2orig {P : Prepared} (h : Simple P) : WF2Orig P := by
   · intro id it hit hd
     rw [(h.items id it hit).2.1] at hd; cases hd
 
+theorem Simple.stageUnamb {P : Prepared} (h : Simple P) : P.StageUnamb := by
+  intro step stage it hd hit
+  obtain ⟨rfl, rfl⟩ := h.declares hd
+  rw [sn_as] at hit
+  obtain ⟨_, h2, h3⟩ := (h.items _ it hit).2.2 (h.stage_item it hit)
+  exact ⟨h2, h3⟩
+
 theorem Simple.wf2 {P : Prepared} (h : Simple P) (h1 : ∀ ed ∈ P.dag.edges, ed.2.1 ≠ "input")
     (h2 : ∀ it, lookup "input" P.items = some it → it.kind = Kind.input) : P.WF2 :=
-  ⟨h.wf, h.wf2orig.output_nodes, h.wf2orig.stage_data_map, h.wf2orig.stage_ids_nonempty, h.wf2orig.kinds_handled, h1, h2⟩
+  ⟨h.wf, h.wf2orig.output_nodes, h.wf2orig.stage_data_map, h.wf2orig.stage_ids_nonempty, h.wf2orig.kinds_handled, h1, h2,
+    h.stageUnamb⟩
 
 theorem Simple.noOutputResolved {P : Prepared} (h : Simple P) (s : LoopState) : NoOutputResolved P s :=
   fun id it hit hk => absurd hk (h.items id it hit).1
